@@ -150,6 +150,17 @@ func (p *c04) RunCase(ctx *runner.Ctx) runner.CaseResult {
 			}
 		}
 	}
+	// a third of the requests also carry a ProjectionExpression - of non-key attributes only, of one key attribute,
+	// of an attribute no item has. Whatever a projection does to the ITEMS of a page (this library validates it and
+	// returns whole items), it does nothing to the walk: the pages together are the unpaginated result of the same
+	// request, and every LastEvaluatedKey is a key to continue from
+	for i := range reqs {
+		if r.Intn(3) == 0 {
+			reqs[i].op.Proj = mon.Pick(r, []string{"v", "g, v", "h", "r, s", "w", "s", "v, w, g"})
+			reqs[i].kind += "|proj"
+			x.r.Counters["requests_with_projection"]++
+		}
+	}
 	witness := func(op adapt.Op, extra map[string]interface{}) map[string]interface{} {
 		w := map[string]interface{}{"adapter": adapter, "spec": spec, "history": hist, "request": op}
 		for k, v := range extra {
